@@ -67,6 +67,12 @@ struct UnitToml {
     /// (left alone) when B contains `continue`
     #[serde(default)]
     expand_values_mut_loops: bool,
+    /// R37: `E.retain_mut(|P| B)` (a literal one-parameter closure without `return`/`?`/`.await`) -> the index loop that is the
+    /// documented meaning of `retain_mut` (every element visited exactly once, in order; kept iff the closure returns true):
+    /// `{ let mut vx_i: usize = 0; while vx_i < E.vx_len() { let vx_keep: bool = { let P = E.vx_item_mut_at(vx_i); B }; if vx_keep
+    /// { vx_i += 1; } else { E.vx_remove_at(vx_i); } } }`
+    #[serde(default)]
+    expand_retain_mut_loops: bool,
     /// R35: `match E.as_str() { "A" => a, "B" => b, _ => d }` (string-literal arms without guards, the wildcard last) ->
     /// `if vx_str_is(&E, "A") { a } else if vx_str_is(&E, "B") { b } else { d }` (Verus does not reason about string patterns: it
     /// treats the choice of arm as opaque; the if-chain is the meaning of the match, first arm first)
@@ -375,6 +381,7 @@ struct Rewriter<'a> {
     expand_option_combinators: bool,
     expand_option_filter: bool,
     expand_values_mut_loops: bool,
+    expand_retain_mut_loops: bool,
     expand_str_match: bool,
     chainmap: Vec<(syn::Expr, syn::Expr)>,
     closure_method_map: BTreeMap<String, String>,
@@ -999,6 +1006,38 @@ impl<'a> VisitMut for Rewriter<'a> {
                 }
             }
             if let Some(r) = repl { *e = r; self.rules.insert("R35".into()); }
+        }
+        // R37: `E.retain_mut(|P| B)` -> the index loop that `retain_mut` means
+        if self.expand_retain_mut_loops {
+            let mut repl: Option<syn::Expr> = None;
+            if let syn::Expr::MethodCall(mc) = e {
+                if mc.method == "retain_mut" && mc.args.len() == 1 && mc.turbofish.is_none() {
+                    if let syn::Expr::Closure(c) = &mc.args[0] {
+                        struct Esc3(bool);
+                        impl<'ast> syn::visit::Visit<'ast> for Esc3 {
+                            fn visit_expr_return(&mut self, _r: &'ast syn::ExprReturn) { self.0 = true; }
+                            fn visit_expr_try(&mut self, _r: &'ast syn::ExprTry) { self.0 = true; }
+                            fn visit_expr_await(&mut self, _r: &'ast syn::ExprAwait) { self.0 = true; }
+                            fn visit_expr_closure(&mut self, _c: &'ast syn::ExprClosure) {}
+                        }
+                        let mut esc = Esc3(false);
+                        syn::visit::Visit::visit_expr(&mut esc, &c.body);
+                        if c.inputs.len() == 1 && !esc.0 && c.asyncness.is_none() {
+                            let recv = (*mc.receiver).clone();
+                            let pat = c.inputs[0].clone();
+                            let body = (*c.body).clone();
+                            repl = Some(syn::parse_quote!({
+                                let mut vx_i: usize = 0;
+                                while vx_i < #recv.vx_len() {
+                                    let vx_keep: bool = { let #pat = #recv.vx_item_mut_at(vx_i); #body };
+                                    if vx_keep { vx_i += 1; } else { #recv.vx_remove_at(vx_i); }
+                                }
+                            }));
+                        }
+                    }
+                }
+            }
+            if let Some(r) = repl { *e = r; self.rules.insert("R37".into()); }
         }
         // R34: `for P in E.values_mut() { B }` -> index loop over the stand-in enumeration of the map's values
         if self.expand_values_mut_loops {
@@ -2316,6 +2355,7 @@ fn main() {
             expand_option_combinators: unit_toml.expand_option_combinators,
             expand_option_filter: unit_toml.expand_option_filter,
             expand_values_mut_loops: unit_toml.expand_values_mut_loops,
+            expand_retain_mut_loops: unit_toml.expand_retain_mut_loops,
             expand_str_match: unit_toml.expand_str_match,
             closure_method_map: unit_toml.closure_method_map.clone(),
             expand_cast_macro: unit_toml.expand_cast_macro,
